@@ -1,5 +1,5 @@
-"""C12: asin/acos NaN exactly for |x| > 1; asin odd; acos(x) within 1 ulp of pi/2 - asin(x) (decided).
-The backward/forward accuracy clause is decided for the std::sqrt builds; monotonicity is not decided."""
+"""C12: asin/acos NaN exactly for |x| > 1; asin odd; acos(x) within 1 ulp of pi/2 - asin(x); backward/forward accuracy of asin:
+decided for the std::sqrt builds and (through the verified isqrt summary of the loop) for the abacus build. Monotonicity is not decided."""
 from . import common, lib
 from .lib import M, FIN, E, sym
 from .c09 import const_of
@@ -39,8 +39,17 @@ def run(tier, seed):
             # both relations are checked inside one program each, so that the two inlined copies of asin (and of the sqrt loop)
             # share their value numbers
             if cfg == "K17A":
-                continue        # the abacus loop is summarised with join symbols: the two relations are decided for the std::sqrt builds
-            if cfg == "K17" or tier != "quick":
+                # the abacus loop is a verified integer square root (fxai.isqrt): the engine applies its summary isqrt(N), a value-numbered
+                # term shared by the inlined copies, instead of unrolling it
+                ctx = lib.Ctx(cfg, EXTRA, only={"w_asin", "w_acos_diff", "w_asin_oddsum"}, summaries=True)
+                r0 = ctx.run("w_asin", [("i", 0, 65536)])
+                nsum = r0.stats.get("loop_summaries", 0)
+                V.oblige(nsum > 0)
+                V.cover.setdefault("abacus_summaries_applied", {})[cfg] = nsum
+                if not nsum:
+                    V.inconc("w_asin [%s]: the sqrt loop was not recognised as a verified integer square root (%s)" % (cfg, r0.an.isqrt_why))
+                    continue
+            if cfg in ("K17", "K17A") or tier != "quick":
                 asin_accuracy(V, ctx, cfg)
             r = ctx.run("w_asin_oddsum", [dom])
             lib.check_regions(V, r, [("|x|<=1", [], ("const", 0))], lambda a, o: o != ("ret", 0), "asin(x) + asin(-x) == 0", site="asin")
@@ -49,10 +58,13 @@ def run(tier, seed):
                               "acos(x) within 1 ulp of fixpidiv2 - asin(x)", site="acos")
         except Broken as e:
             V.broke("%s: %s" % (cfg, e))
-    expl = ("DECIDED: (std::sqrt and abacus builds) asin and acos return the NaN constant on every path with |x.v| > 65536 and a bounded non-NaN "
-            "value on |x.v| <= 65536; (std::sqrt builds) asin(x) + asin(-x) == 0 and acos(x) - (fixpidiv2 - asin(x)) in [-1,1] as region checks on single programs (the inlined copies of asin and of "
-            "the sqrt loop share value numbers) (acos uses phi/2 = fixpidiv2 - 1). NOT DECIDED: the 2-ulp/4-ulp backward-forward "
-            "error bound and monotonicity (numeric; composition with sqrt).")
+    expl = ("DECIDED for the std::sqrt builds and the abacus build: asin and acos return the NaN constant on every path with |x.v| > 65536 and a "
+            "bounded non-NaN value on |x.v| <= 65536; asin(x) + asin(-x) == 0 and acos(x) - (fixpidiv2 - asin(x)) in [-1,1] as region checks on "
+            "single programs (the inlined copies of asin and of the square root share value numbers; acos uses phi/2 = fixpidiv2 - 1); the "
+            "backward/forward clause F(x-2) - 4 <= asin_lib(x) <= F(min(x+2,1)) + 4 (F = 65536 asin) from |asin_lib - F| <= 4 + 2 F'(x-2), proved "
+            "cell by cell with the idealised expression of both branches: the reflection branch contains fptosi(fma(sqrt(sitofp(a)/65536), 65536, .5)) "
+            "(std::sqrt) or isqrt(65536 a) (abacus: the loop is verified to be an integer square root by its inductive invariant, fxai.isqrt, and "
+            "replaced by that summary), and the 160 arguments next to 1 by constant propagation. NOT DECIDED: exact monotonicity of asin.")
     return V.finish("other", expl, "./fx check C12 --tier %s" % tier, extra={"configs": configs})
 
 
